@@ -106,13 +106,14 @@ def check(case) -> Result:
                     ({"unit": case["bad_unit"]}, "bad_unit")):
         args = dict(font=font, font_size=a, unit="in", dpi=dpi)
         args.update(kw)
-        try:
-            w(s or "x", **args)
-            res.fail("rejects", sig, f"no exception for {kw}")
-        except ValueError:
-            pass
-        except Exception as e:
-            res.fail("rejects", sig + ":" + type(e).__name__, str(e)[:100])
+        for txt in (s, "x", ""):        # unsupported font / unit must be refused for ANY text, the empty string included
+            try:
+                w(txt, **args)
+                res.fail("rejects", sig + ("/empty_text" if txt == "" else ""), f"no exception for {kw} with text {txt!r}")
+            except ValueError:
+                pass
+            except Exception as e:
+                res.fail("rejects", sig + ":" + type(e).__name__, str(e)[:100])
     nonascii = any(ord(ch) > 127 for ch in s)
     res.labels = [f"font={font}", "nonascii" if nonascii else "ascii", "frac_size" if a != int(a) else "int_size",
                   "dpi72" if dpi == 72.0 else "dpi_other", "empty" if not s else "nonempty"]
